@@ -144,6 +144,35 @@ def main():
                 out["colr%d/%s/ttf-reloaded" % (i, lib)] = sha(lambda: ufo2ft.compileTTF(r))
                 r = ufoLib2.Font.open(p) if lib == "ufoLib2" else defcon.Font(p)
                 out["colr%d/%s/otf-reloaded" % (i, lib)] = sha(lambda: ufo2ft.compileOTF(r))
+            # a font whose lib asks for glyph filters, among them the dotted-circle filter over a font that HAS a U+25CC glyph
+            # without the attachment anchors the marks need (odd i: no such glyph, the filter draws one): the same histories
+            sqf = lambda x, y, d: [[(Fr(x), Fr(y), "line"), (Fr(x + d), Fr(y), "line"), (Fr(x + d), Fr(y + d), "line"), (Fr(x), Fr(y + d), "line")]]
+            fg = [{"name": "a", "unicodes": [0x61], "width": 500, "contours": sqf(50, 0, 400), "components": [],
+                   "anchors": [("top", Fr(250), Fr(520)), ("bottom", Fr(250), Fr(-10))]},
+                  {"name": "acutecomb", "unicodes": [0x301], "width": 0, "contours": sqf(-60, 550, 80), "components": [],
+                   "anchors": [("_top", Fr(-20), Fr(520)), ("top", Fr(-20), Fr(700))]},
+                  {"name": "dotbelowcomb", "unicodes": [0x323], "width": 0, "contours": sqf(-40, -150, 60), "components": [],
+                   "anchors": [("_bottom", Fr(-10), Fr(-10))]},
+                  {"name": "aacute", "unicodes": [0xE1], "width": 500, "contours": [], "anchors": [],
+                   "components": [("a", (1, 0, 0, 1, 0, 0)), ("acutecomb", (1, 0, 0, 1, 270, 0))]}]
+            if i % 2 == 0:
+                fg.append({"name": "dottedcircle", "unicodes": [0x25CC], "width": 600, "contours": sqf(100, 100, 400), "components": [],
+                           "anchors": [("bottom", Fr(300), Fr(-20))] if i % 4 == 2 else []})
+            fdesc = {"glyphs": fg, "glyphOrder": [g["name"] for g in fg],
+                     "lib": {"com.github.googlei18n.ufo2ft.filters": [{"name": "dottedCircle", "pre": True},
+                                                                      {"name": "propagateAnchors", "pre": True},
+                                                                      {"name": "sortContours"}]},
+                     "features": "languagesystem DFLT dflt;\n"}
+            for lib in ("ufoLib2", "defcon"):
+                f = build_font(fdesc, lib)
+                out["filt%d/%s/ttf" % (i, lib)] = sha(lambda: ufo2ft.compileTTF(f))
+                out["filt%d/%s/ttf-second" % (i, lib)] = sha(lambda: ufo2ft.compileTTF(f))
+                out["filt%d/%s/otf-after-ttf" % (i, lib)] = sha(lambda: ufo2ft.compileOTF(f))
+                g = build_font(fdesc, lib)
+                out["filt%d/%s/otf-first" % (i, lib)] = sha(lambda: ufo2ft.compileOTF(g))
+                out["filt%d/%s/ttf-after-otf" % (i, lib)] = sha(lambda: ufo2ft.compileTTF(g))
+                h = build_font(fdesc, lib)
+                out["filt%d/%s/ttf-inplace" % (i, lib)] = sha(lambda: ufo2ft.compileTTF(h, inplace=True))
             # a family
             ds_rng = random.Random(seed * 1000 + i)
             for lib in ("ufoLib2", "defcon"):
